@@ -775,7 +775,7 @@ func (ex *Exec) arithResult(st *State, x *ssa.BinOp, r *Term) *Term {
 	if !ok {
 		return r
 	}
-	if ex.arith {
+	if ex.arith || (ex.arithMul && x.Op == token.MUL) {
 		ex.oblige(st, "overflow", "overflow", And(Ge(r, lo), Le(r, hi)), x.Pos())
 		ex.assume(st, And(Ge(r, lo), Le(r, hi)))
 	} else if ex.ranged {
